@@ -3,6 +3,7 @@
 package absnfs
 
 import (
+	"strings"
 	"fmt"
 	"math/big"
 	"runtime"
@@ -306,6 +307,7 @@ func TestVerif_C18(t *testing.T) {
 	}
 	vfC18Handlers(rec)
 	vfC18ZeroRates(rec)
+	vfC18SamePeerAddress(rec)
 }
 
 func vfAdvClass(d time.Duration) string {
@@ -918,4 +920,82 @@ func vfC18ZeroRates(rec *evid.Rec) {
 		}
 		srv.Close()
 	}
+}
+
+// vfC18SamePeerAddress: two connections that report the same remote ip:port at the same time (a client
+// reconnecting from its kept source port while the old connection is still being torn down; any
+// transport whose connections share an address). Each connection has its own per-connection budget:
+// on a frozen clock a connection is admitted its burst and nothing more, whatever happens to the
+// other connection - also after the other one has gone.
+func vfC18SamePeerAddress(rec *evid.Rec) {
+	t0 := time.Unix(1_800_000_000, 0)
+	vfClockSet(t0)
+	cfg := DefaultRateLimiterConfig()
+	cfg.PerConnectionRequestsPerSecond, cfg.PerConnectionBurstSize = 1, 20
+	cfg.PerIPRequestsPerSecond, cfg.PerIPBurstSize, cfg.GlobalRequestsPerSecond = 100000, 100000, 100000
+	fs := refs.New()
+	srv, err := vfNewSrv(fs, ExportOptions{AttrCacheTimeout: 1, EnableRateLimiting: true, RateLimitConfig: &cfg})
+	if err != nil {
+		rec.Infra(err.Error())
+		return
+	}
+	defer srv.Close()
+	admitted := func(p *vfPipe, n int) (int, bool) {
+		ok := 0
+		for i := 0; i < n; i++ {
+			_, raw, err := p.call(vfProgNFS, 3, 0, vfRootCred(), nil)
+			if err != nil {
+				return ok, false
+			}
+			if rep, derr := rfc.DecodeReply(raw); derr == nil && !rep.Denied && rep.AcceptStat == 0 {
+				ok++
+			}
+		}
+		return ok, true
+	}
+	p1 := srv.pipe("10.0.0.7", 875)
+	p2 := srv.pipe("10.0.0.7", 875)
+	a1, ok1 := admitted(p1, 10)
+	a2, ok2 := admitted(p2, 30)
+	if !ok1 || !ok2 {
+		rec.Inconclusive(1)
+		p1.close()
+		p2.close()
+		return
+	}
+	rec.Eval(40)
+	if a2 > 20 {
+		rec.Violate("C18/connection/admitted-beyond-burst/two-connections-report-one-address", fmt.Sprintf("the second connection was admitted %d requests on a frozen clock, its burst is 20", a2), nil)
+	}
+	if a1 == 10 && a2 < 20 {
+		rec.Violate("C18/connection/refused-inside-its-own-budget/two-connections-report-one-address", fmt.Sprintf("two live connections report 10.0.0.7:875; the first used 10 of its 20, the second was admitted only %d of its own 20 on a frozen clock", a2), nil)
+	}
+	// the first connection goes away; the second has used its burst and the clock still stands
+	p1.close()
+	for d := time.Now().Add(10 * time.Second); time.Now().Before(d) && vfGoroutinesWithC18("absnfs.(*Server).handleConnectionLoop") > 1; {
+		time.Sleep(5 * time.Millisecond)
+	}
+	more, ok3 := admitted(p2, 25)
+	p2.close()
+	if !ok3 {
+		rec.Inconclusive(1)
+		return
+	}
+	rec.Eval(25)
+	if a2 >= 20 && more > 0 {
+		rec.Violate("C18/connection/admitted-beyond-burst/after-another-connection-with-the-same-address-closed", fmt.Sprintf("a connection had used its burst of 20 on a frozen clock; after another connection reporting the same ip:port was closed it was admitted %d more", more), nil)
+	}
+	rec.Distinct(fmt.Sprintf("same-peer-address|first=%d|second=%d|after-close=%d", a1, a2, more))
+}
+
+func vfGoroutinesWithC18(frame string) int {
+	buf := make([]byte, 8<<20)
+	buf = buf[:runtime.Stack(buf, true)]
+	n := 0
+	for _, g := range strings.Split(string(buf), "\n\n") {
+		if strings.Contains(g, frame) {
+			n++
+		}
+	}
+	return n
 }
